@@ -119,20 +119,30 @@ def main2():
     ap.add_argument('-j', type=int, default=3)
     ap.add_argument('--only', default='')
     ap.add_argument('--suite', action='store_true')
+    ap.add_argument('--resume', action='store_true', help='reuse results of an interrupted run made with the current engine binary')
     a = ap.parse_args()
     items = load_corpus()
     if a.only:
         want = set(a.only.split(','))
         items = [i for i in items if i['id'] in want]
     t0 = time.time()
+    pdir = os.path.join(TMP, 'selftest_partial')
+    os.makedirs(pdir, exist_ok=True)
+    engine_mtime = os.path.getmtime(os.path.join(ROOT, 'bin', 'govc'))
+
+    def run_print(it):
+        pf = os.path.join(pdir, it['id'] + '.json')
+        if a.resume and os.path.exists(pf) and os.path.getmtime(pf) > engine_mtime:
+            r = json.load(open(pf))  # --resume: result of an interrupted run with this very engine build
+            print('%-8s %-7s %-5s (resumed)' % (r['id'], r['kind'], r['status'][:40]), flush=True)
+            return r
+        r = run_one(it, a.suite)
+        json.dump(r, open(pf, 'w'))
+        print('%-8s %-7s %-5s %s  (%.0fs)' % (r['id'], r['kind'], r['status'][:40], ' '.join('%s:exit%d/%dv' % (p, c['exit'], c['violations']) for p, c in r['checks'].items()), r.get('seconds', 0)), flush=True)
+        return r
     with ThreadPoolExecutor(max_workers=a.j) as ex:
-        results = list(ex.map(lambda it: run_one(it, a.suite), items))
-    bad = 0
-    for r in results:
-        line = '%-8s %-7s %-5s %s' % (r['id'], r['kind'], r['status'][:40], ' '.join('%s:exit%d/%dv' % (p, c['exit'], c['violations']) for p, c in r['checks'].items()))
-        print(line)
-        if r['status'] != 'PASS':
-            bad += 1
+        results = list(ex.map(run_print, items))
+    bad = sum(1 for r in results if r['status'] != 'PASS')
     head = subprocess.run('git -C %s rev-parse --short HEAD' % REPO, shell=True, stdout=subprocess.PIPE).stdout.decode().strip()
     out = dict(repo_head=head, when=time.strftime('%Y-%m-%dT%H:%M:%S'), total=len(results), not_pass=bad, wall_s=round(time.time() - t0, 1), results=results)
     if not a.only:
